@@ -464,10 +464,18 @@ func c20Compare(c *Ctx) {
 		}
 	}
 	// Min / Max: loop accumulators
+	c20MinMaxRows(c, rule, true, true)
+}
+
+// c20MinMaxRows decides typ.Min and/or typ.Max; C02 re-uses the Max row, on which calcHeight rests.
+func c20MinMaxRows(c *Ctx, rule string, min, max bool) {
 	for _, mm := range []struct {
 		name string
 		less bool
 	}{{"typ.Min", true}, {"typ.Max", false}} {
+		if (mm.less && !min) || (!mm.less && !max) {
+			continue
+		}
 		fi := c.fn(rule, mm.name)
 		ps := c.paths(rule, fi)
 		if ps == nil {
